@@ -42,6 +42,8 @@ pub enum Seg {
 #[derive(Clone, Debug)]
 pub struct VarDecl {
     pub name: String,
+    /// how the id literal is spelled: 0 = 0xab, 1 = 0xAB, 2 = decimal, 3 = 0x_a_b style underscores
+    pub spell: u8,
     pub id: u64,
     pub ty: Ty,
     pub path: Vec<Seg>, // empty => no doc_path attribute (root element)
@@ -71,9 +73,25 @@ pub fn decl_from_spec(spec: &Spec, name: &str) -> Decl {
                 PP::Glob(a, b) => Seg::Glob(*a, *b),
             })
             .collect();
-        vars.push(VarDecl { name: e.name.clone(), id: e.id, ty: e.ty, path });
+        vars.push(VarDecl { name: e.name.clone(), spell: 0, id: e.id, ty: e.ty, path });
     }
     Decl { name: name.to_string(), vars }
+}
+
+fn id_text(id: u64, spell: u8) -> String {
+    match spell % 4 {
+        0 => format!("{:#x}", id),
+        1 => format!("{:#X}", id),
+        2 => format!("{}", id),
+        _ => {
+            let h = format!("{:x}", id);
+            if h.len() > 2 {
+                format!("0x{}_{}", &h[..h.len() / 2], &h[h.len() / 2..])
+            } else {
+                format!("0x{}", h)
+            }
+        }
+    }
 }
 
 fn seg_text(s: &Seg) -> String {
@@ -95,7 +113,7 @@ impl Decl {
         }
         let _ = writeln!(s, "#[derive(Clone, Debug, PartialEq)]\npub enum {} {{", self.name);
         for v in &self.vars {
-            let _ = write!(s, "    #[id({:#x})] #[data_type(TagDataType::{})] ", v.id, ty_ident(v.ty));
+            let _ = write!(s, "    #[id({})] #[data_type(TagDataType::{})] ", id_text(v.id, v.spell), ty_ident(v.ty));
             if !v.path.is_empty() {
                 let _ = write!(s, "#[doc_path({})] ", path_text(&v.path));
             }
@@ -115,7 +133,7 @@ impl Decl {
             if !p.is_empty() {
                 p.push('/');
             }
-            let _ = writeln!(s, "    {}{} : {} = {:#x},", p, v.name, ty_ident(v.ty), v.id);
+            let _ = writeln!(s, "    {}{} : {} = {},", p, v.name, ty_ident(v.ty), id_text(v.id, v.spell));
         }
         s.push_str("}\n");
         if with_macro {
@@ -162,6 +180,7 @@ pub fn random_decl(rng: &mut Rng, name: &str) -> Decl {
     // variant names must be distinct identifiers and must not collide with the added variants
     let mut seen = BTreeSet::new();
     for (i, v) in d.vars.iter_mut().enumerate() {
+        v.spell = if rng.chance(1, 2) { 0 } else { rng.below(4) as u8 };
         if !seen.insert(v.name.clone()) || ["Crc32", "Void", "RawTag"].contains(&v.name.as_str()) {
             let old = v.name.clone();
             v.name = format!("{}X{}", old, i);
@@ -576,14 +595,17 @@ pub fn make_broken(rng: &mut Rng, base: &Decl, class: &str) -> Option<String> {
                 b = (b + 1) % d.vars.len();
             }
             d.vars[b].id = d.vars[a].id;
+            d.vars[b].spell = if rng.chance(1, 2) { d.vars[a].spell } else { d.vars[a].spell.wrapping_add(1 + rng.below(3) as u8) };
         }
         "duplicate-id-with-void" => {
             let a = rng.usize_below(d.vars.len());
             d.vars[a].id = VOID_ID;
+            d.vars[a].spell = rng.below(4) as u8;
         }
         "duplicate-id-with-crc32" => {
             let a = rng.usize_below(d.vars.len());
             d.vars[a].id = CRC_ID;
+            d.vars[a].spell = rng.below(4) as u8;
         }
         "unknown-parent" => {
             let c: Vec<usize> = d.vars.iter().enumerate().filter(|(_, v)| v.path.iter().any(|s| matches!(s, Seg::Name(_)))).map(|(i, _)| i).collect();
@@ -680,7 +702,7 @@ pub fn make_broken(rng: &mut Rng, base: &Decl, class: &str) -> Option<String> {
             // textual edits on the rendered source
             let i = rng.usize_below(d.vars.len());
             let src = d.attribute_form(false);
-            let needle_id = format!("#[id({:#x})] ", d.vars[i].id);
+            let needle_id = format!("#[id({})] ", id_text(d.vars[i].id, d.vars[i].spell));
             let needle_ty = format!("#[data_type(TagDataType::{})] ", ty_ident(d.vars[i].ty));
             // make sure we edit variant i (ids are unique in a well-formed base)
             let pos = src.find(&needle_id)?;
@@ -1064,7 +1086,7 @@ fn reject_compile_one(src: &str, suffix: u64) -> Result<bool, String> {
 }
 
 fn minimal_base() -> Decl {
-    let v = |n: &str, id: u64, ty: Ty, path: Vec<Seg>| VarDecl { name: n.to_string(), id, ty, path };
+    let v = |n: &str, id: u64, ty: Ty, path: Vec<Seg>| VarDecl { name: n.to_string(), spell: 0, id, ty, path };
     let nm = |s: &str| Seg::Name(s.to_string());
     Decl {
         name: "Mini".into(),
